@@ -113,6 +113,37 @@ CHECKS['C19'] = {
     'explanation': 'A sanitizer abort counts as a violation for this property.',
 }
 
+_GATT = {'harness': 'gatt_sim', 'binary': 'gatt_sim'}
+_GATT_NOTE = ('trusted: the reference model in harness/gatt_world.hpp and the handle/permission rules re-stated in gen/gen_configs.py (declaration and model table come from one abstract '
+              'description); 16 generated server configurations per build; the link layer and L2CAP are stubs')
+_GATT_ASSUME = ['one ATT request at a time per connection', 'error codes are only checked where a property names them (security 0x05/0x0f, invalid offset, attribute not found, prepare queue full)']
+def _gatt(text, technique, expl=''):
+    return {'harnesses': [_GATT], 'technique': technique, 'design_ref': 'DESIGN.md 4.1, 5, 6', 'level_text': text + ' Sampling, not proof.', 'level_note': _GATT_NOTE, 'assumptions': _GATT_ASSUME, 'explanation': expl}
+CHECKS['C01'] = _gatt('Seeded search over valid, boundary and hostile ATT PDUs (every opcode, lengths 1..MTU+3) from 1-3 clients after arbitrary histories, on generated server declarations; input PDUs and output buffers are '
+                      'exactly sized heap blocks under ASan; every response is checked for length <= negotiated MTU / buffer, matching response opcode or Error Response naming the request, and silence for non-requests.',
+                      'deterministic simulation: hostile multi-client ATT traffic with disconnect/security faults against framing rules, under ASan', 'A sanitizer abort counts as a violation for this property.')
+CHECKS['C02'] = _gatt('Seeded search over (start, end, type, MTU) for Find Information, Read By Type and Read By Group Type, as single requests and as complete iterated discovery procedures, on generated declarations with fixed '
+                      'handles and gaps: every response must be a gap-free ascending run of the model\'s in-range matching attributes (unreadable ones may be left out by Read By Type), Attribute Not Found only when nothing matches, and the '
+                      'iterated procedure must enumerate the match set exactly once.', 'deterministic simulation: discovery histories compared with an independent handle table')
+CHECKS['C03'] = _gatt('Seeded search over Read By Group Type and Find By Type Value for «Primary Service» (all ranges, present/absent/secondary UUIDs, iterated to completion) on declarations mixing primary and secondary services: '
+                      'reported (start, end, uuid) triples must equal the model\'s primary services starting in range.', 'deterministic simulation: primary service discovery histories against the model service list')
+CHECKS['C05'] = _gatt('Seeded search over every read path (Read, Blob, By Type, Multiple, notification, indication) and write path (Write, Command, Prepare/Execute, CCCD) with link security transitions injected between any two '
+                      'steps, on declarations with all placements of the encryption options: a protected value or CCCD never appears in a PDU and never changes while the connection is unencrypted; rejections carry 0x05 without key, 0x0f with.',
+                      'deterministic simulation: security-state fault injection against a permission/encryption model')
+CHECKS['C06'] = _gatt('Seeded search over reads and writes with arbitrary offsets/lengths on bound, constant, fixed and handler based values (with injected handler errors): byte exact value store model compared after every op, '
+                      'Invalid Offset past the end, permission options on every access path, declared properties equal what is permitted.', 'deterministic simulation: value store reference model compared after every step')
+CHECKS['C07'] = _gatt('Seeded search over interleavings of Prepare/Execute/Write/Read from 2-3 clients with disconnects (same or new connection object) and security changes at any position, queue sizes from one entry up: '
+                      'prepares change nothing and call no handler, execute applies the owner\'s entries in order, flag 0 / execute / error / disconnect release the queue, non-owners get Prepare Queue Full, a prepare is accepted '
+                      'iff a Write Request would be permitted.', 'deterministic simulation: multi-client write-queue histories with disconnect faults against a queue model')
+CHECKS['C08'] = _gatt('Seeded search over sequences of Exchange MTU (valid, <23, wrong length, repeated) mixed with long reads and notifications: model MTU = min(server maximum, last valid client MTU); every response, notification and '
+                      'indication fits it and uses it for long values; invalid requests leave it unchanged.', 'deterministic simulation: MTU negotiation histories against a two-variable model')
+CHECKS['C09'] = _gatt('Seeded search over CCCD writes (0..0xffff, 1 and 2 bytes, via Write, Command, Prepare/Execute) and reads from 2-3 connections on declarations with 0-11 CCCDs (crossing the 4-per-byte packing): per connection '
+                      'map compared after every op on all connections; subscription callback count equals the number of stored-value changes.', 'deterministic simulation: per-connection CCCD map model')
+CHECKS['C10'] = _gatt('Seeded search over application requests (by bound value and by UUID), subscription changes, value changes and link polls with varying buffer sizes: each notification/indication carries the value handle and '
+                      'current value of a requested characteristic, goes only to a connection subscribed for that kind, and one PDU per burst of identical requests.', 'deterministic simulation: application/link/client interleavings against a pending-request model')
+CHECKS['C11'] = _gatt('Same world as C10: between an indication and its confirmation no further indication on that connection; after faults stop and with the client confirming, every deliverable pending indication is emitted within '
+                      '2*(pending+1) polls; requests for unsubscribed or unreadable characteristics are excluded from the obligation.', 'deterministic simulation: indication/confirmation interleavings, bounded liveness after faults stop')
+
 # properties that are deliberately not decided by simulation (see DESIGN.md section 7)
 NOT_APPLICABLE = {
     'C04': 'compile-time mapping of the declaration to handles: no schedule, clock, fault or history can influence it (DESIGN.md 7); mapping errors still surface under C02/C03, whose model has an independent handle table',
